@@ -655,6 +655,26 @@ func runC08(c *ev.Ctx) {
 			groups = append(groups, g)
 		}
 	}
+	// a slow device: 60-120 ms per Read, a run lasts seconds; verdicts must not depend on elapsed time
+	for _, fname := range []string{"PeriodFast", "PowerOnFast"} {
+		w := workflows[fname]
+		r := gen.NewRng(gen.Mix(seed, 8111, uint64(w.B)))
+		m := baseMatrix(r, w.S, w.Items)
+		for i := 0; i < w.Items; i++ {
+			setPassCount(r, m, i, oracle.Threshold(w.S))
+		}
+		st := Stream{Kind: "matrix", Seed: r.U64(), Matrix: m, Tail: "fail"}
+		g := &c08Group{wf: fname, stream: st}
+		id++
+		g.seqID = id
+		scns = append(scns, Scn{ID: id, WF: w.Seq, Stream: st, Stub: true, Chunk: mon.ChunkPlan{Kind: "whole"}, Delay: mon.DelayPlan{Mode: "slow", Seed: uint64(id)}, Note: "sequential reference: slow source (60-120 ms per read)"})
+		for k := 0; k < 2; k++ {
+			id++
+			scns = append(scns, Scn{ID: id, WF: fname, Stream: st, Stub: true, Chunk: mon.ChunkPlan{Kind: "whole"}, Delay: mon.DelayPlan{Mode: "slow", Seed: uint64(id)}, Procs: procs[k%4], Note: fmt.Sprintf("slow source (60-120 ms per read) rep%d", k)})
+			g.fast = append(g.fast, id)
+		}
+		groups = append(groups, g)
+	}
 	// seekable / random-access reader types at a non-zero start position
 	for si, srcT := range []string{"bytes", "file", "bufio"} {
 		for _, fname := range []string{"PeriodFast", "PowerOnFast", "FactoryFast"} {
